@@ -106,3 +106,8 @@
 (assert (forall ((s Bytes) (i Int) (j Int) (c Int)) (! (=> (and (noByte s c) (<= 0 i) (<= i j) (<= j (blen s))) (noByte (bsub s i j) c)) :pattern ((noByte (bsub s i j) c)))))
 ; validName(s): a path component: non-empty, no '/', no NUL, not "." or ".."
 (assert (forall ((s Bytes)) (! (= (validName s) (and (> (blen s) 0) (noByte s 47) (noByte s 0) (not (= s (byte1 46))) (not (= s (bcat (byte1 46) (byte1 46)))))) :pattern ((validName s)))))
+; ---- more on contains / digits
+(assert (forall ((s Bytes) (p Bytes)) (! (=> (and (contains s p) (> (blen p) 0)) (not (noByte s (bat p 0)))) :pattern ((contains s p)))))
+(assert (forall ((p Bytes) (b Bytes)) (! (=> (> (blen p) 0) (and (contains (bcat p b) p) (= (splitHead (bcat p b) p) bempty) (= (splitTail (bcat p b) p) b))) :pattern ((contains (bcat p b) p)))))
+(assert (forall ((p Bytes) (b Bytes)) (! (=> (> (blen p) 0) (and (contains (bcat p b) p) (= (splitHead (bcat p b) p) bempty) (= (splitTail (bcat p b) p) b))) :pattern ((splitAll (bcat p b) p)))))
+(assert (forall ((d Bytes) (c Int)) (! (=> (and (allDigits d) (or (< c 48) (> c 57))) (noByte d c)) :pattern ((allDigits d) (noByte d c)))))
